@@ -4,7 +4,10 @@
    value setter and use_* selectors, DerivedValue setters; qexpy/data/datasets.py:
    ExperimentalValueArray.__new__ / __wrap, XYDataSet.__init__ / __wrap_data,
    _get_error_array_helper; qexpy/data/utils.py: wrap_in_measurement / wrap_in_experimental_value;
-   qexpy/data/operations.py: DerivativeEvaluator.__evaluate through Model/Expr.lean).
+   qexpy/data/operations.py: DerivativeEvaluator.__evaluate through Model/Expr.lean;
+   MonteCarloEvaluator.evaluate — mean / n−1 standard deviation of the stored samples, the mode
+   walk of qexpy/utils/utils.py: find_mode_and_uncertainty through Model/ModeWalk.lean, or the
+   custom pair of qexpy/data/utils.py: MonteCarloSettings.use_custom_value_and_error).
 
   Generic over `Num`: run with `FB`, proved with `ℝ`.
   The sign tests, the stored / new uncertainties and the arrays of `_get_error_array_helper` are
@@ -16,6 +19,7 @@ import QExPy.Num
 import QExPy.Model.Stats
 import QExPy.Model.Expr
 import QExPy.Generated.Uncert
+import QExPy.Model.ModeWalk
 
 namespace QExPy.Uncert
 open QExPy
@@ -70,6 +74,15 @@ inductive Op (α : Type) where
   | sel (i : Nat) (s : Stats.Sel)
   | arith (o : Op2) (a b : Operand α)
   | unary (o : Op1) (a : Nat)
+  /-- `d.error_method = MONTE_CARLO; d.mc.use_mean_and_std()` and a read: value and uncertainty
+      are the mean and the n−1 standard deviation of the stored sample set (a parameter: what
+      `d.mc.samples()` returns) -/
+  | mcMeanStd (i : Nat) (samples : List α)
+  /-- `d.mc.use_mode_with_confidence(conf)` and a read: the mode walk on the 100-bin histogram of
+      the stored samples (`numpy.histogram`, a parameter) -/
+  | mcMode (i : Nat) (counts : List Nat) (edges : List α) (conf : α)
+  /-- `d.mc.use_custom_value_and_error(v, e)` -/
+  | mcCustom (i : Nat) (v e : α)
 
 inductive Out where
   | ok | reject
@@ -252,6 +265,47 @@ def unary (h : Heap α) (o : Op1) (a : Nat) : Heap α × Out :=
   | none => (h, .reject)
   | some (ea, h1) => (h1 ++ [derive h1 (.un o ea)], .ok)
 
+/-! ### Monte Carlo results of a calculated quantity (only a `DerivedValue` has `.mc`) -/
+
+/-- default strategy: mean and n−1 standard deviation of the stored samples -/
+def mcMeanStd (h : Heap α) (i : Nat) (samples : List α) : Heap α × Out :=
+  match h[i]? with
+  | none => (h, .reject)
+  | some q =>
+    match q.kind with
+    | .derived => (h.set i { q with value := Stats.mean samples, error := Stats.std1 samples }, .ok)
+    | _ => (h, .reject)
+
+/-- the confidence setter refuses levels outside [0, 1] BEFORE the strategy is switched -/
+def badConf (c : α) : Bool := Num.lt (Num.ofNat 1) c || Num.lt c zero
+
+/-- mode strategy: centre of the fullest bin, `k` bin widths -/
+def mcMode (h : Heap α) (i : Nat) (counts : List Nat) (edges : List α) (conf : α) : Heap α × Out :=
+  match h[i]? with
+  | none => (h, .reject)
+  | some q =>
+    match q.kind with
+    | .derived =>
+      if badConf conf then (h, .reject)
+      else
+        let p := ModeWalk.modeResult counts edges conf
+        (h.set i { q with value := p.1, error := p.2 }, .ok)
+    | _ => (h, .reject)
+
+/-- custom pair: a negative uncertainty is refused before anything is switched or stored -/
+def mcCustom (h : Heap α) (i : Nat) (v e : α) : Heap α × Out :=
+  match h[i]? with
+  | none => (h, .reject)
+  | some q =>
+    match q.kind with
+    | .derived => if neg? e then (h, .reject) else (h.set i { q with value := v, error := e }, .ok)
+    | _ => (h, .reject)
+
+/-- what `numpy.histogram` guarantees about the edges it returns: the last is not below the first
+    (the bin width `(last − first)/len` is then `≥ 0`).  Checked by the driver on every request. -/
+def edgesOrdered (edges : List α) : Bool :=
+  Num.le (edges.getD 0 zero) (edges.getD (edges.length - 1) zero)
+
 def step (h : Heap α) : Op α → Heap α × Out
   | .mkMeasurement v e => mkMeasurement h v e
   | .mkRepeated xs spec => mkRepeated h xs spec
@@ -265,6 +319,9 @@ def step (h : Heap α) : Op α → Heap α × Out
   | .sel i s => sel h i s
   | .arith o a b => arith h o a b
   | .unary o a => unary h o a
+  | .mcMeanStd i smp => mcMeanStd h i smp
+  | .mcMode i cnt edges c => mcMode h i cnt edges c
+  | .mcCustom i v e => mcCustom h i v e
 
 def exec (h : Heap α) (ops : List (Op α)) : Heap α := ops.foldl (fun h op => (step h op).1) h
 
